@@ -185,6 +185,11 @@ def _xcfg_mate(enc):
     return fn
 
 
+def _twdh(rng):
+    from pybrops.breed.prot.mate.TwoWayDHCross import TwoWayDHCross
+    return TwoWayDHCross(rng=rng)
+
+
 def _memetic(name):
     return lambda env, rng: _soln(_algo(name, rng, mod="NSGA2MemeticSubsetGeneticAlgorithm").minimize(_quad(two=True)))
 
@@ -237,6 +242,9 @@ OPS = {
     "memetic_steepest": ("pymoo", _memetic("NSGA2SteepestDescentSubsetGeneticAlgorithm"), True),
     "memetic_stochastic": ("pymoo", _memetic("NSGA2StochasticDescentSubsetGeneticAlgorithm"), True),
     "memetic_b": ("pymoo", _memetic("NSGA2MutatorBSubsetGeneticAlgorithm"), True),
+    "select_embv": ("select", lambda env, rng: _select("ExpectedMaximumBreedingValueSubsetSelection", "ExpectedMaximumBreedingValueSelection",
+                                                      lambda r: _algo("SortingSubsetOptimizationAlgorithm", None), nrep=2,
+                                                      mateprot=_twdh(rng), unique_parents=True)(env, rng), True),
     "select_ebv_ga": ("pymoo", _select("EstimatedBreedingValueIntegerSelection", "EstimatedBreedingValueSelection",
                                         lambda rng: _algo("IntegerGeneticAlgorithm", rng), unscale=True), True),
 }
